@@ -1501,3 +1501,12 @@ def m_is_pow2(I, st, fr, args, path, gargs, t):
     if lo == hi:
         return K(int(lo > 0 and lo & (lo - 1) == 0), 'bool')
     raise Stop('is_power_of_two of a symbolic value')
+
+
+@model(r'<T as core::convert::TryInto<U>>::try_into')
+def m_try_into(I, st, fr, args, path, gargs, t):
+    # blanket impl: U::try_from(self)
+    tys = [g for g in gargs if not g.startswith("'")]
+    if len(tys) >= 2 and tys[0] in INT_RANGES and tys[1] in INT_RANGES:
+        return m_try_from_int(I, st, fr, args, 'core::convert::num::<impl core::convert::TryFrom<%s> for %s>::try_from' % (tys[0], tys[1]), gargs, t)
+    raise Stop('try_into %s' % (gargs,))
